@@ -764,6 +764,8 @@ def result_by_axis(res, dims):
 
 def maxabs(a):
     a = np.asarray(a)
+    if a.dtype.kind in "iub":
+        a = a.astype(float)          # abs of the most negative integer overflows in its own type
     return float(np.max(np.abs(a))) if a.size else 0.0
 
 
